@@ -229,7 +229,8 @@ def jitter_seeds(args):
 
 
 # ------------------------------------------------------------------ sensitivity-sample
-def sample_seeds(start_seed):
+def sample_seeds(start_seed, nsamples=None):
+    nsamples = nsamples or (11 if start_seed == 42 else 4)
     d = tempfile.mkdtemp(prefix="verif_c20s_")
     viol = []
     real = tools.sensitivity_command
@@ -270,12 +271,12 @@ def sample_seeds(start_seed):
         try:
             try:
                 sys.stdout, sys.stderr = io.StringIO(), io.StringIO()
-                tools.sensitivity_sample_command(toml, d, 4, start_seed=start_seed, jitter_seed=1)
+                tools.sensitivity_sample_command(toml, d, nsamples, start_seed=start_seed, jitter_seed=1)
             except BaseException as ex:
                 sys.stdout, sys.stderr = o, e
                 viol.append(("command-raised", f"{type(ex).__name__}: {ex}", dict(start_seed=start_seed)))
             sys.stdout, sys.stderr = o, e
-            for i in range(4):
+            for i in range(nsamples):
                 f = os.path.join(d, f"w{i}.csv")
                 if not os.path.exists(f):
                     viol.append(("task-failed", f"sample {i}: no workload written", dict(start_seed=start_seed, i=i)))
@@ -297,7 +298,7 @@ def sample_seeds(start_seed):
     finally:
         tools.sensitivity_command = real
         shutil.rmtree(d, ignore_errors=True)
-    return dict(n=4, viol=viol, states={("sample", start_seed)})
+    return dict(n=nsamples, viol=viol, states={("sample", start_seed)})
 
 
 def main(tier, seed):
@@ -357,7 +358,7 @@ def main(tier, seed):
         rep.add_states(r["states"])
         for kind, d, sc in r["viol"]:
             rep.add_violations([Violation("sensitivity-sample", kind, d, sc, [], family="sample")])
-    rep.part("sensitivity-sample", start_seeds=3, samples_each=4)
+    rep.part("sensitivity-sample", start_seeds=3, samples=[11, 4, 4])
     rep.add_nontrivial({s for s in rep._state_hashes if len(s) == 2 and isinstance(s[1], str) and Fr(Decimal(s[1])) != Fr(float(s[1]))} | {s for s in rep._state_hashes if len(s) == 3})
     rep.sample(dict(tool="snap", tps=100, arrival="0.29", must_stay="0.29"))
     rep.sample(dict(tool="jitter", trace=traces[1], delta=0.1, answers=[0.05, 0.0, 0.0999999]))
